@@ -181,6 +181,10 @@ def eval_history(args):
     probes_nodes = [(0, 0, ()), (0, 1, (0,)), (1, 0, ()), (1, 1, (0, 1))]
     probes = [((POINTS[pi] + np.array([0.3, 0.05, 0.0])) % np.asarray(box), m, k, ex) for pi in (0, 2, 3) for (m, k, ex) in probes_nodes
               if k < n_node and all(e < n_node for e in ex)]
+    # probes closer than 0.1 nm to a possibly positioned point, queried WITH that residue in the exclusion list
+    # (the 0.1 nm floor of the statement applies to every positioned residue, excluded or not)
+    probes += [((POINTS[pi] + np.array([0.05, 0.02, 0.0])) % np.asarray(box), m, k, ex) for pi in (0, 1) for (m, k, ex) in probes_nodes
+               if k < n_node and all(e < n_node for e in ex) and ex]
     for i, op in enumerate(hist):
         if op[0] in ("remove", "concat") or (op[0] == "add" and n2g[(op[1], op[2])] in ref.pos):
             nontrivial = True
